@@ -109,4 +109,95 @@ def build_T15a(tree):
     return '\n\n'.join(parts), hashlib.sha256(''.join(shas).encode()).hexdigest()
 
 
-TARGETS = {'T15a': {'file': 'sr/sop.py', 'build': build_T15a}}
+# ---------------------------------------------------------------- T15b: collect_evidence
+def build_T15b(tree):
+    """sr/utils.py::collect_evidence: the body of `for evd in evidence:` as a decision over
+    (already seen, referenced) and the guard after the loop.
+
+    Gen.evidenceStep (seen referenced : Bool) : (action, mark_seen)   action 0 = skipped, 1 = appended to the
+        referenced group, 2 = appended to the unreferenced group; mark_seen = the UID is added to `evd_uids`
+    Gen.evidenceGuard (all_referenced_supplied : Bool)                  the `issubset` guard after the loop
+
+    Shape checks (textual, part of the translated span): the membership tests are on `evd.SOPInstanceUID`, the item
+    carries class and instance UID of the evidence data set, the key is (StudyInstanceUID, SeriesInstanceUID), both
+    groups are turned into items by `_create_references`, and the search collects IMAGE and COMPOSITE items recursively."""
+    fn = find_func(tree, 'collect_evidence')
+    body = strip_doc(fn.body)
+    src = ast.unparse(ast.Module(body=body, type_ignores=[]))
+    loops = [s for s in body if isinstance(s, ast.For)]
+    if len(loops) != 1 or ast.unparse(loops[0].target) != 'evd' or ast.unparse(loops[0].iter) != 'evidence':
+        raise Unsupported('collect_evidence: `for evd in evidence:` not found')
+    loop = loops[0]
+    for needle in ('evd_item.ReferencedSOPClassUID = evd.SOPClassUID', 'evd_item.ReferencedSOPInstanceUID = evd.SOPInstanceUID',
+                   'key = (evd.StudyInstanceUID, evd.SeriesInstanceUID)', 'ref_items = _create_references(ref_group)',
+                   'unref_items = _create_references(unref_group)', 'return (ref_items, unref_items)',
+                   'evd_uids = set()'):
+        if needle not in src:
+            raise Unsupported(f'collect_evidence no longer contains `{needle}`')
+    searches = [n for n in ast.walk(fn) if isinstance(n, ast.Call) and ast.unparse(n.func) == 'find_content_items']
+    kinds = sorted(ast.unparse(k.value) for c in searches for k in c.keywords if k.arg == 'value_type')
+    recs = [ast.unparse(k.value) for c in searches for k in c.keywords if k.arg == 'recursive']
+    if kinds != ['ValueTypeValues.COMPOSITE', 'ValueTypeValues.IMAGE'] or recs != ['True', 'True'] or \
+            any(ast.unparse(c.args[0]) != 'content' for c in searches):
+        raise Unsupported(f'collect_evidence: reference search changed ({kinds}, recursive={recs})')
+    if 'ref.ReferencedSOPSequence[0].ReferencedSOPInstanceUID' not in src:
+        raise Unsupported('collect_evidence: ref_uids is no longer built from ReferencedSOPSequence[0].ReferencedSOPInstanceUID')
+
+    class R(ast.NodeTransformer):
+        def visit_Compare(self, node):
+            if len(node.ops) == 1 and isinstance(node.ops[0], (ast.In, ast.NotIn)) and ast.unparse(node.left) == 'evd.SOPInstanceUID':
+                nm = {'evd_uids': 'seen', 'ref_uids': 'referenced'}.get(ast.unparse(node.comparators[0]))
+                if nm is None:
+                    raise Unsupported(f'membership test in {ast.unparse(node.comparators[0])}')
+                t = ast.Name(id=nm, ctx=ast.Load())
+                return ast.UnaryOp(op=ast.Not(), operand=t) if isinstance(node.ops[0], ast.NotIn) else t
+            return node
+
+        def visit_Continue(self, node):
+            return ast.parse('return (0, False)').body[0]
+
+        def visit_Expr(self, node):
+            t = ast.unparse(node)
+            if t == 'ref_group[key].append(evd_item)':
+                return ast.parse('action = 1').body[0]
+            if t == 'unref_group[key].append(evd_item)':
+                return ast.parse('action = 2').body[0]
+            if t == 'evd_uids.add(evd.SOPInstanceUID)':
+                return ast.parse('mark = True').body[0]
+            return node
+
+        def visit_Assign(self, node):
+            t = ast.unparse(node.targets[0])
+            if t in ('evd_item', 'key') or t.startswith('evd_item.'):
+                return None
+            return node
+    stmts = []
+    for st in loop.body:
+        r = R().visit(ast.parse(ast.unparse(st)).body[0])
+        if r is not None:
+            stmts.append(r)
+    block = [ast.parse('action = 0').body[0], ast.parse('mark = False').body[0]] + stmts + [ast.parse('return (action, mark)').body[0]]
+    for s_ in block:
+        ast.fix_missing_locations(s_)
+    t1 = translate_block(block, 'evidenceStep', [('seen', 'bool'), ('referenced', 'bool')], {},
+                         doc='`collect_evidence`: body of `for evd in evidence` -> (action, mark_seen); action 0 skip, 1 referenced '
+                             'group, 2 unreferenced group')
+    after = body[body.index(loop) + 1:]
+    guards = [s_ for s_ in after if isinstance(s_, ast.If)]
+    if len(guards) != 1 or ast.unparse(guards[0].test) != 'not ref_uids.issubset(evd_uids)':
+        raise Unsupported('collect_evidence: guard `if not ref_uids.issubset(evd_uids)` after the loop not found')
+    g = ast.parse(ast.unparse(guards[0])).body[0]
+    g.test = ast.UnaryOp(op=ast.Not(), operand=ast.Name(id='all_referenced_supplied', ctx=ast.Load()))
+    g.body = [s_ for s_ in g.body if isinstance(s_, ast.Raise)]
+    if len(g.body) != 1:
+        raise Unsupported('collect_evidence: guard body no longer raises')
+    gb = [g, ast.parse('return True').body[0]]
+    for s_ in gb:
+        ast.fix_missing_locations(s_)
+    t2 = translate_block(gb, 'evidenceGuard', [('all_referenced_supplied', 'bool')], {},
+                         doc='`collect_evidence`: the guard after the loop (every referenced UID was supplied)')
+    return t1 + '\n\n' + t2, hashlib.sha256(ast.unparse(fn).encode()).hexdigest()
+
+
+TARGETS = {'T15a': {'file': 'sr/sop.py', 'build': build_T15a},
+           'T15b': {'file': 'sr/utils.py', 'build': build_T15b}}
